@@ -5,6 +5,9 @@ package c18
 import (
 	"context"
 	"fmt"
+	"github.com/coreos/etcd/raft/raftpb"
+	"google.golang.org/grpc"
+	"math/rand"
 	"os"
 	"regexp"
 	"runtime"
@@ -595,6 +598,43 @@ func scenario(rec *mon.Recorder, c int) bool {
 		note(fmt.Sprintf("%d datasets created and the catalogue log compacted on the others while node %d was down", made, victim.Id))
 		rec.Count("restarts_caught_up_by_catalogue_snapshot_over_known_datasets", 1)
 	}
+	// While the node is away and while it replays its catalogue (loading one partition group after the other), clients
+	// keep writing through the other node: replicas there that followed the restarting node forward their proposals to
+	// it, where the groups it has already loaded have no leader yet.
+	var writersStop int32
+	var writers sync.WaitGroup
+	if c%4 >= 2 {
+		otherNode := cl.Nodes[1-victim.Idx]
+		var targets []*pb.Dataset
+		cl.Guard(8*time.Second, func() { targets, _ = otherNode.DM().List(ctx, false) })
+		for w := 0; w < 3 && len(targets) > 0; w++ {
+			writers.Add(1)
+			go func(w int) {
+				defer writers.Done()
+				wr := rand.New(rand.NewSource(int64(c)*101 + int64(w)))
+				for atomic.LoadInt32(&writersStop) == 0 {
+					d := targets[wr.Intn(len(targets))]
+					ds := otherNode.Dataset(uuid.FromBytesOrNil(d.GetId()))
+					if ds == nil || otherNode.Dead() {
+						time.Sleep(5 * time.Millisecond)
+						continue
+					}
+					vec := make([]float32, d.GetDimension())
+					for j := range vec {
+						vec[j] = float32(wr.NormFloat64())
+					}
+					wctx, cancel := context.WithTimeout(context.Background(), 300*time.Millisecond)
+					ds.Insert(wctx, uuid.NewV4(), vec, nil)
+					cancel()
+				}
+			}(w)
+		}
+		rec.Count("restarts_with_writes_arriving_through_the_other_node", 1)
+	}
+	defer func() {
+		atomic.StoreInt32(&writersStop, 1)
+		cl.Guard(10*time.Second, func() { writers.Wait() })
+	}()
 	note(fmt.Sprintf("restart node %d", victim.Id))
 	if err := cl.Restart(victim.Idx); err != nil {
 		if strings.Contains(err.Error(), "did not return") {
@@ -755,6 +795,21 @@ func churnBehindLeaderlessGroup(rec *mon.Recorder, c int) bool {
 			other = n
 		}
 	}
+	// A late message of the dead replica: a proposal it forwarded to its peer just before it died arrives once the
+	// peer's election timeout has passed. The group has no leader and never will, so the transport handler that
+	// received it waits - which must not keep anything else on the node waiting.
+	time.Sleep(300 * time.Millisecond)
+	if cc, derr := grpc.Dial(S.Addr, grpc.WithInsecure()); derr == nil {
+		m := raftpb.Message{Type: raftpb.MsgProp, From: V.Id, To: S.Id, Entries: []raftpb.Entry{{}}}
+		if mb, merr := m.Marshal(); merr == nil {
+			lctx, cancel := context.WithTimeout(context.Background(), 300*time.Millisecond)
+			pb.NewRaftTransportClient(cc).Receive(lctx, &pb.RaftMessage{GroupId: pid.Bytes(), Message: mb})
+			cancel()
+			note(fmt.Sprintf("a proposal node %d had forwarded reaches node %d, whose group has no leader", V.Id, S.Id))
+			rec.Count("late_forwarded_proposals_delivered_to_a_leaderless_group", 1)
+		}
+		cc.Close()
+	}
 	var rmErr error
 	if !cl.Guard(20*time.Second, func() { rmErr = cl.Nodes[0].In.NodesManager.RemoveNode(V.Id) }) {
 		return !stalled(fmt.Sprintf("removal of dead node %d", V.Id))
@@ -796,6 +851,12 @@ func churnBehindLeaderlessGroup(rec *mon.Recorder, c int) bool {
 		rec.Count("progress_checks", 1)
 		return true
 	}
+	// a dataset that both live members host (two replicas on two members): each of them loads a partition group now
+	cl.Guard(10*time.Second, func() {
+		if _, err := other.DM().Create(ctx, &pb.Dataset{Dimension: 2, PartitionCount: 2, ReplicationFactor: 2}); err == nil {
+			note("a dataset with two replicas per partition created: both live members load partition groups")
+		}
+	})
 	if !marker("after the removal", 40*time.Second) {
 		return false
 	}
